@@ -19,3 +19,16 @@ def run(rep, prop):
   rep.coverage['witnesses_run'] += res['run']
   for w in res['failing']:
     rep.add_finding(Finding(prop, 'witness:%s' % w['id'], w['what'], replay=w, concrete=True))
+
+  # the demonstration scripts of the seeded changes (seeded/<id>-*/demo.py): regression scenarios that must pass
+  script = os.path.join(ROOT, 'bounded', 'seed_demos.py')
+  rc, out, err = P.run_child(script, [prop], timeout=1500)
+  try:
+    res = json.loads(out.strip().splitlines()[-1])
+  except Exception:
+    rep.error('seed demo runner failed rc=%s: %s | %s' % (rc, out[-300:], err[-600:]))
+    return
+  rep.coverage['seed_demos_run'] = res['run']
+  for w in res['failing']:
+    rep.add_finding(Finding(prop, 'witness:seed-demo:%s' % w['id'], 'scenario of the seeded change %s fails: %s' % (w['id'], w['what']),
+                            replay=dict(w, script='seeded/%s/demo.py' % w['id']), concrete=True))
